@@ -43,7 +43,7 @@ Fixpoint sels_strictM (fuel : nat) (C : cfg) (S : schema) (frs : list fragdef) (
             field_strict C S nested tn f &&
             match fn_sub f, schema_field_type S tn (fn_name f) with
             | Some sub, Ok t => (* interface positions: only in the mixin-free theorem (okb = false here) *)
-                                strict_sub (fun _ _ => false) (sels_strictM g C S frs true) S (base_name t) sub
+                                strict_sub (fun _ _ => false) (sels_strictM g C S frs true) (fun _ _ => false) S (base_name t) sub
             | _, _ => true
             end) fns &&
           forallb (fun m => match lookup_frag frs m with
@@ -64,7 +64,7 @@ Lemma sels_strictM_inv gs C S frs nested tn sels g fns ms :
   sels_strictM gs C S frs nested tn sels = true -> flattenM g S frs tn tn false sels = Some (fns, ms) ->
   exists gs', gs = Datatypes.S gs' /\
     forallb (fun f => field_strict C S nested tn f &&
-                      sub_strict S (fun _ _ _ _ => false) (sels_strictM gs' C S frs true) tn f) fns = true /\
+                      sub_strict S (fun _ _ _ _ => false) (sels_strictM gs' C S frs true) (fun _ _ => false) tn f) fns = true /\
     forallb (mixin_strict gs' C S frs tn) ms = true.
 Proof.
   destruct gs as [|gs']; [discriminate|]. cbn [sels_strictM]. intros H Hfl.
@@ -77,6 +77,8 @@ Qed.
 
 Section MixS.
   Variables (C : cfg) (S : schema) (frs : list fragdef) (F : nat) (cls : list pclass).
+  Variable mx : list string.
+  Hypothesis G0 : mx_ok cls mx = true.
   Hypothesis G1 : NoDup (map c_name cls).
   Hypothesis G3 : no_basemodel cls = true.
   Hypothesis G2 : forall fm, In fm frs -> unpack_fragment S fm None = false ->
@@ -92,7 +94,7 @@ Section MixS.
   Definition class_goodS (g : nat) (cn : string) (tn : string) (N l : list cnode) : Prop :=
     exists pfs, (forall j, j >= g + 2 -> mro_fields j cls cn = Some pfs) /\
       (forall pf, In pf pfs -> exists f, In (node_of_fnode false f) N /\
-          forall n', n' >= F + g + 1 -> field_facts_rev C S frs (Wn n') tn f pf) /\
+          forall n', n' >= F + g + 1 -> field_facts_rev C S frs (Wn n') [tn] tn f pf) /\
       (forall x, In x l -> In (n_key x) (map field_key_of pfs)).
 
   Definition ambS (N : list cnode) : Prop :=
@@ -119,7 +121,7 @@ Section MixS.
     assert (Hndk : NoDup (map n_key l)) by (eapply keys_ok_nodup; eauto).
     (* a field of the class determines its node by the key *)
     assert (Hnode : forall pf, In pf pfs -> forall x, In x l -> field_key_of pf = n_key x ->
-              exists f, x = node_of_fnode false f /\ field_facts_rev C S frs (Wn n') tn f pf).
+              exists f, x = node_of_fnode false f /\ field_facts_rev C S frs (Wn n') [tn] tn f pf).
     { intros pf Hpf x Hx Ek. destruct (HA pf Hpf) as [f [Hf Hfacts]]. exists f. split; [| apply Hfacts, Hn].
       destruct (Hfacts n' Hn) as [E1 _].
       eapply (NoDup_map_inj_in n_key); eauto. rewrite <- Ek, E1. reflexivity. }
@@ -152,7 +154,7 @@ Section MixS.
         destruct (Hnode pf (last_wins_In _ _ Hin) x Hx He) as [f [Ex [_ [_ [_ [_ Hval]]]]]].
         apply Hval in Hw. unfold value_lconf in Hw. subst x. cbn [n_name node_of_fnode].
         destruct (String.eqb (fn_name f) "__typename").
-        + subst v. apply ev_const. apply String.eqb_refl.
+        + destruct Hw as [s0 [Es0 [Hs0 | []]]]. subst v s0. apply ev_const. apply String.eqb_refl.
         + destruct Hw as [ft [Hft He']]. rewrite Hft. exact He'.
       - (* absent key: the field's default must be None, so the node is conditional *)
         pose proof (Hacc pf1 Hpf1) as Ha. unfold field_check in Ha. rewrite Ek1, Ev in Ha.
@@ -186,26 +188,26 @@ Section MixS.
       + apply IH. intros n Hn. specialize (H n Hn). inversion H; subst. assumption.
   Qed.
 
-  Theorem mixS_main : forall g gs fuel pub cn tn sels at_ tv top nested out pub' k l N,
-    fuel <= F -> parse_type_def fuel C S frs pub cn tn sels at_ [] tv = Ok (out, pub', false) ->
-    sels_okM g true C S frs top at_ tn tn sels = true -> sels_strictM gs C S frs nested tn sels = true ->
+  Theorem mixS_main : forall g gs fuel pub cn tn sels at_ eb tv top nested out pub' k l N,
+    fuel <= F -> parse_type_def fuel C S frs pub cn tn sels at_ eb tv = Ok (out, pub', false) ->
+    sels_okM g true C S frs mx top at_ tn tn sels = true -> sels_strictM gs C S frs nested tn sels = true ->
     (at_ = true -> has_typename sels = true) ->
-    tv = (if nested then Some [tn] else None) -> table_ok cls out ->
+    tv = (if nested then Some [tn] else None) -> table_ok cls out -> harmless cls eb ->
     collect k S frs tn false sels = Some l -> incl l N -> ambS N ->
     class_goodS g cn tn N l.
   Proof.
     induction g as [|g IH];
-      intros gs fuel pub cn tn sels at_ tv top nested out pub' k l N HF Hp Hok Hst Hat Htv Htab Hcol HlN Hamb;
+      intros gs fuel pub cn tn sels at_ eb tv top nested out pub' k l N HF Hp Hok Hst Hat Htv Htab Heb Hcol HlN Hamb;
       [discriminate Hok|].
-    destruct (sels_okM_inv _ _ _ _ _ _ _ _ _ _ Hok) as [g' [fns [ms [Eg [Hfl [_ [Hfields [Hmix Hreach]]]]]]]].
+    destruct (sels_okM_inv _ _ _ _ _ _ _ _ _ _ _ Hok) as [g' [fns [ms [Eg [Hfl [_ [Hfields [Hmix Hreach]]]]]]]].
     inversion Eg; subst g'. clear Eg.
     destruct (sels_strictM_inv _ _ _ _ _ _ _ _ _ _ Hst Hfl) as [gs' [Egs [Hstf Hstm]]]. subst gs.
     destruct fuel as [|fuel']; [discriminate Hp|].
-    destruct (level_invM _ _ _ _ _ _ _ _ _ _ _ _ _ _ _ _ Hp Hfl Hat)
+    destruct (level_invM _ _ _ _ _ _ _ _ _ _ _ _ _ _ _ _ _ Hp Hfl Hat)
       as [f2 [pfl [extra [kept [Ef [Hrun [Hkept [Hrem Hout]]]]]]]].
     destruct Hamb as [HkN HpyN].
     destruct (flattenM_collect_mix _ _ _ _ _ _ _ _ _ _ _ Hfl Hcol) as [Hown Hmixn].
-    assert (Hc0 : In {| c_name := cn; c_bases := class_bases ms kept []; c_fields := pfl |} out)
+    assert (Hc0 : In {| c_name := cn; c_bases := class_bases ms kept eb; c_fields := pfl |} out)
       by (rewrite Hout; left; reflexivity).
     destruct (Htab _ Hc0) as [Hl Hnb]. simpl in Hl, Hnb.
     assert (HB : forall m, In m ms -> exists fm km lm,
@@ -216,32 +218,35 @@ Section MixS.
       destruct (lookup_frag frs m) as [fm|] eqn:Elf; [| discriminate Hmix].
       apply andb_true_iff in Hmix as [Hmix Hokm]. apply andb_true_iff in Hmix as [Hnm Hun].
       apply negb_true_iff in Hun. apply andb_true_iff in Hstm as [Hon Hstm]. apply String.eqb_eq in Hon.
-      destruct (fr_mixins fm) eqn:Emx; [| discriminate Hnm].
+      pose proof (mx_ok_harmless _ _ _ G0 Hnm) as Hhm.
       unfold lookup_frag in Elf. pose proof (find_some _ _ Elf) as [Hfin Hfn].
       apply String.eqb_eq in Hfn.
-      destruct (G2 fm Hfin Hun) as [outm [pubm [Hrunm Hinm]]]. rewrite Emx, Hfn, Hon in Hrunm.
+      destruct (G2 fm Hfin Hun) as [outm [pubm [Hrunm Hinm]]]. rewrite Hfn, Hon in Hrunm.
       rewrite Hon in Hokm.
       destruct (Hmixn m Hm) as [fm' [k' [lm [Elf' [Hcm Hilm]]]]].
       unfold lookup_frag in Elf'. rewrite Elf in Elf'. inversion Elf'; subst fm'.
       exists fm, k', lm. split; [reflexivity|]. split; [exact Hcm|]. split; [exact Hilm|].
-      eapply (IH gs' F [] (pascal_s m) tn (fr_sel fm) false None false false outm pubm k' lm N); eauto;
+      eapply (IH gs' F [] (pascal_s m) tn (fr_sel fm) false (fr_mixins fm) None false false outm pubm k' lm N); eauto;
         try discriminate.
       - apply (table_of_incl cls G1 G3), Hinm.
       - eapply incl_tran; eauto.
       - split; auto. }
     destruct (mro_with_bases2 cls cn _ (g + 2) Hl Hnb) as [pfs [Hmro [Hdec [Hownp Hname]]]].
-    { intros b Hb. destruct (class_bases_In _ _ _ Hb) as [E | [m [Hm E]]]; subst b.
+    { intros b Hb. destruct (class_bases_In _ _ _ _ Hb) as [E | [[m [Hm E]] | Hbe]]; [subst b | subst b |].
       - exists []. intros j Hj. apply mro_basemodel. lia.
-      - destruct (HB m (Hkept m Hm)) as [fm [km [lm [_ [_ [_ [pb [Hpb _]]]]]]]]. exists pb. exact Hpb. }
+      - destruct (HB m (Hkept m Hm)) as [fm [km [lm [_ [_ [_ [pb [Hpb _]]]]]]]]. exists pb. exact Hpb.
+      - exists []. intros j Hj. destruct j as [|j']; [lia|]. apply mro_empty, Heb, Hbe. }
     (* the own fields, uniformly in the validation fuel *)
     assert (HFF : Forall2 (fun f pf => forall n', n' >= F + Datatypes.S g + 1 ->
-                                         field_facts_rev C S frs (Wn n') tn f pf) fns pfl).
+                                         field_facts_rev C S frs (Wn n') [tn] tn f pf) fns pfl).
     { apply Forall2_forall. intros n' Hn'. destruct n' as [|n1]; [lia|].
       eapply level_facts_rev with (W := Wn (Datatypes.S n1)) (mro := mro_fields n1 cls)
-                                  (ok := sels_okM g true C S frs true) (ok2 := fun _ _ _ _ => false)
-                                  (strict := sels_strictM gs' C S frs true)
+                                  (ok := sels_okM g true C S frs mx true) (ok2 := fun _ _ _ _ => false)
+                                  (strict := sels_strictM gs' C S frs true) (una := fun _ _ => false)
+                                  (mx := mx) (harm := harmless cls) (tvs := [tn])
                                   (fuel' := fuel') (g := g) (cs := cls);
-        try eassumption.
+        try eassumption; try (intro Hnil; discriminate Hnil).
+      - intros eb0. apply mx_ok_harmless, G0.
       - apply Wn_opt.
       - apply Wn_list.
       - intros m j Hnn H. unfold Wn in H. apply andb_true_iff in H as [H _]. cbn [accepts] in H.
@@ -249,24 +254,25 @@ Section MixS.
       - intros m Hm. unfold Wn. cbn [accepts]. rewrite scalar_rejects_null by exact Hm. reflexivity.
       - intros m vs j Hm H. unfold Wn in H. apply andb_true_iff in H as [H _]. cbn [accepts] in H.
         rewrite (enum_leaf_exact S _ m vs j Hm) in H. exact H.
-      - intros t v H. unfold Wn in H. apply andb_true_iff in H as [H _]. simpl in H.
-        destruct v; try discriminate H. unfold mem in H. simpl in H. rewrite orb_false_r in H.
-        apply String.eqb_eq in H. congruence.
+      - intros vs v H. unfold Wn in H. apply andb_true_iff in H as [H _]. simpl in H.
+        destruct v; try discriminate H. eexists. split; [reflexivity | apply mem_In, H].
       - intros c j H. unfold Wn in H. apply andb_true_iff in H as [H _]. simpl in H.
         destruct j; try discriminate H. eauto.
       - intros alts j H. unfold Wn in *. apply acc_cov_union, H.
-      - intros c fs Hlc Hnc Hbc Hm. eapply mro_some_simple; eauto.
+      - intros c eb0 fs Hlc Hnc Hbc Hh Hm. eapply mro_some_harmless; eauto.
       - eauto.
       - (* nested classes *)
-        intros pb cn2 tn2 sels2 at2 out2 pub2 kv2 P1 P2 P3 P3' P4 P5.
-        destruct P2 as [P2 | P2]; [| discriminate P2].
+        intros pb cn2 tn2 sels2 at2 eb2 tvs2 out2 pub2 kv2 P0 P1 Pne P2 P3 Pd P3' P4 P5.
+        destruct Pd as [Pd | [_ Pd]]; [subst tvs2 | discriminate Pd].
+        exists tn2. split; [left; reflexivity|].
+        destruct (P2 tn2 (or_introl eq_refl)) as [P2' | P2']; [| discriminate P2']. clear P2. rename P2' into P2.
         unfold Wn in P5. apply andb_true_iff in P5 as [P5 P6].
         change (class_accepts (accepts n1 cls (schema_enums S)) (mro_fields n1 cls cn2) (JObj kv2) = true) in P5.
         change (class_covers (covers n1 cls) (mro_fields n1 cls cn2) (JObj kv2) = true) in P6.
-        destruct (sels_okM_inv _ _ _ _ _ _ _ _ _ _ P2) as [g'' [fns2 [ms2 [_ [_ [Htop2 _]]]]]].
+        destruct (sels_okM_inv _ _ _ _ _ _ _ _ _ _ _ P2) as [g'' [fns2 [ms2 [_ [_ [Htop2 _]]]]]].
         destruct (Htop2 eq_refl) as [l2 [Hc2 [Hk2 Hpy2]]].
         assert (Hgood : class_goodS g cn2 tn2 l2 l2).
-        { eapply (IH gs' fuel' pb cn2 tn2 sels2 at2 (Some [tn2]) true true out2 pub2 g'' l2 l2); eauto.
+        { eapply (IH gs' fuel' pb cn2 tn2 sels2 at2 eb2 (Some [tn2]) true true out2 pub2 g'' l2 l2); eauto.
           - lia.
           - apply incl_refl.
           - split; [exact Hk2 | apply Hpy2; reflexivity]. }
@@ -278,17 +284,19 @@ Section MixS.
         rewrite collect_scopes_single. rewrite (collect_mono _ _ _ _ _ _ _ Hc2 fc) by lia. apply Ha. lia.
       - eapply table_ok_incl; [exact Htab|]. rewrite Hout. apply incl_tl, incl_refl. }
     assert (HA : forall pf, In pf pfs -> exists f, In (node_of_fnode false f) N /\
-               forall n', n' >= F + Datatypes.S g + 1 -> field_facts_rev C S frs (Wn n') tn f pf).
+               forall n', n' >= F + Datatypes.S g + 1 -> field_facts_rev C S frs (Wn n') [tn] tn f pf).
     { intros pf Hpf. destruct (Hdec pf Hpf) as [Hin | [b [pb [Hb [Hmb Hinb]]]]].
       - simpl c_fields in Hin. destruct (Forall2_In_r _ _ _ _ HFF Hin) as [f [Hf Hfacts]].
         exists f. split; [apply HlN, Hown, Hf | exact Hfacts].
-      - destruct (class_bases_In _ _ _ Hb) as [E | [m [Hm E]]]; subst b.
+      - destruct (class_bases_In _ _ _ _ Hb) as [E | [[m [Hm E]] | Hbe]]; [subst b | subst b |].
         + pose proof (Hmb (g + 2) (le_n _)) as E1. rewrite mro_basemodel in E1 by lia. inversion E1; subst pb.
           contradiction.
         + destruct (HB m (Hkept m Hm)) as [fm [km [lm [_ [_ [_ [pb' [Hpb' [HA' _]]]]]]]]].
           assert (pb = pb') by (specialize (Hmb (g + 2) (le_n _)); specialize (Hpb' (g + 2) (le_n _)); congruence).
           subst pb'. destruct (HA' pf Hinb) as [f [Hf Hfacts]]. exists f. split; [exact Hf|].
-          intros n' Hn'. apply Hfacts. lia. }
+          intros n' Hn'. apply Hfacts. lia.
+        + pose proof (Hmb (g + 2) (le_n _)) as E1. replace (g + 2) with (Datatypes.S (g + 1)) in E1 by lia.
+          rewrite (mro_empty cls b (g + 1) (Heb b Hbe)) in E1. inversion E1; subst pb. contradiction. }
     exists pfs. split; [intros j Hj; apply Hmro; lia|]. split; [exact HA|].
     (* name and key of a field, from its facts *)
     assert (Hnk : forall pf, In pf pfs -> p_name pf = py_field_name C (field_key_of pf) /\
@@ -305,7 +313,7 @@ Section MixS.
       pose proof (collect_fuel_det _ _ _ _ _ _ _ _ _ Hcm Hcm') as El. subst lm'.
       specialize (HBb x Hx). apply in_map_iff in HBb. destruct HBb as [pfm [Ekm Hpfm]].
       assert (Hne : ms <> []) by (intro E; rewrite E in Hkept; apply (Hkept m Hm)).
-      destruct (Hname (pascal_s m) pb pfm (class_bases_In_conv _ _ _ Hm Hne) Hpb Hpfm) as [pf' [Hpf' En]].
+      destruct (Hname (pascal_s m) pb pfm (class_bases_In_conv _ _ _ _ Hm Hne) Hpb Hpfm) as [pf' [Hpf' En]].
       apply in_map_iff. exists pf'. split; [| exact Hpf'].
       destruct (Hnk pf' Hpf') as [A1 A2].
       destruct (HAb pfm Hpfm) as [fb0 [Hfb0 Hfa]]. destruct (Hfa (F + g + 1) (le_n _)) as [B1 [B2 _]].
@@ -328,9 +336,9 @@ Section MixS.
       + apply existsb_exists in Hr. destruct Hr as [k0 [Hk0 Hfb]].
         destruct (fragment_bases g S frs k0) as [lk|] eqn:Efb; [| discriminate Hfb]. apply mem_In in Hfb.
         destruct (HB k0 (Hkept k0 Hk0)) as [fk [kk [Lk [Elk [Hck [_ _]]]]]].
-        assert (Hmk : mixin_ok g true C S frs tn k0 = true)
+        assert (Hmk : mixin_ok g true C S frs mx tn k0 = true)
           by (rewrite forallb_forall in Hmix; apply Hmix, Hkept, Hk0).
-        destruct (nodes_incl C S frs tn true _ _ _ _ _ _ _ _ Hmk Efb Hfb Elk Hck) as [fm2 [c2 [Lm [E1 [E2 E3]]]]].
+        destruct (nodes_incl C S frs mx tn true _ _ _ _ _ _ _ _ Hmk Efb Hfb Elk Hck) as [fm2 [c2 [Lm [E1 [E2 E3]]]]].
         rewrite Elf in E1. inversion E1; subst fm2.
         pose proof (collect_fuel_det _ _ _ _ _ _ _ _ _ Hcm E2) as El. subst Lm.
         eapply (HK k0 Hk0 fk kk Lk); eauto.
@@ -339,20 +347,21 @@ End MixS.
 
 (* ------------------------------------------------------------------------------------------- *)
 (* Operation level                                                                              *)
-Theorem op_strict_mix C S frs F kind name sels root own pub' cls g gs j n :
+Theorem op_strict_mix C S frs F kind name mixins sels root own pub' cls g gs mx j n :
   root_type_name S kind = Ok root ->
-  op_parse F C S frs kind name [] sels = Ok (own, pub', false) ->
-  all_classes F C S frs (DOp kind name [] sels) = Ok cls ->
-  op_okM g true C S frs root sels = true -> sels_strictM gs C S frs false root sels = true ->
+  op_parse F C S frs kind name mixins sels = Ok (own, pub', false) ->
+  all_classes F C S frs (DOp kind name mixins sels) = Ok cls ->
+  op_okM g true C S frs mx mixins root sels = true -> sels_strictM gs C S frs false root sels = true ->
+  mx_ok cls mx = true ->
   nodupb (map c_name cls) = true -> no_basemodel cls = true -> frag_no_skip F C S frs = true ->
   n >= F + g + 2 ->
   accepts n cls (schema_enums S) (AClass (pascal_s name)) j = true ->
   covers n cls (AClass (pascal_s name)) j = true ->
   ev (fun fc => conf_op_gen lax_leaf false true fc S frs root sels j).
 Proof.
-  intros Hroot Hop Hall Hok Hst Hnd Hnb Hfs Hn Hacc Hcov.
+  intros Hroot Hop Hall Hok Hst Hmx Hnd Hnb Hfs Hn Hacc Hcov.
   apply nodupb_NoDup in Hnd.
-  unfold op_okM in Hok. apply andb_true_iff in Hok as [Hobj Hsels].
+  unfold op_okM in Hok. apply andb_true_iff in Hok as [Hobj Hsels]. apply andb_true_iff in Hobj as [Hobj Hmix].
   assert (Hj : exists kv, j = JObj kv).
   { destruct n as [|n']; [discriminate Hacc|]. simpl in Hacc. destruct j; try discriminate Hacc. eauto. }
   destruct Hj as [kv Ej]. subst j.
@@ -362,16 +371,17 @@ Proof.
   unfold op_parse in Hop. rewrite Hroot in Hop. simpl in Hop.
   assert (HF1 : F >= 1) by (destruct F; [discriminate Hop | lia]).
   pose proof (frag_runs _ _ _ _ _ _ Hall Hfs) as G2.
-  destruct (sels_okM_inv _ _ _ _ _ _ _ _ _ _ Hsels) as [g' [fns [ms [_ [_ [Htop _]]]]]].
+  destruct (sels_okM_inv _ _ _ _ _ _ _ _ _ _ _ Hsels) as [g' [fns [ms [_ [_ [Htop _]]]]]].
   destruct (Htop eq_refl) as [l [Hc [Hk Hpy]]].
   destruct n as [|n']; [lia|].
   change (class_accepts (accepts n' cls (schema_enums S)) (mro_fields n' cls (pascal_s name)) (JObj kv) = true) in Hacc.
   change (class_covers (covers n' cls) (mro_fields n' cls (pascal_s name)) (JObj kv) = true) in Hcov.
   assert (Hgood : class_goodS C S frs F cls g (pascal_s name) root l l).
-  { eapply (mixS_main C S frs F cls Hnd Hnb G2 HF1 g gs F [] (pascal_s name) root sels false None true false
+  { eapply (mixS_main C S frs F cls mx Hmx Hnd Hnb G2 HF1 g gs F [] (pascal_s name) root sels false mixins None true false
                       own pub' g' l l); eauto.
     - discriminate.
     - apply (table_of_incl cls Hnd Hnb), Hown.
+    - eapply mx_ok_harmless; eauto.
     - apply incl_refl.
     - split; [exact Hk | apply Hpy; reflexivity]. }
   assert (He : ev (fun fc => conf_obj_gen false (lconf fc S frs) S root (Some l) kv)).
